@@ -94,6 +94,7 @@ func c10RacePass(tier string) {
 		return nil, errors.New("body saw its context end")
 	})
 	call.CallOverrideFN(base, "busy!", func() (types.MalType, error) { runtime.Gosched(); runtime.Gosched(); return 9, nil })
+	call.CallOverrideFN(base, "probe!", func(ctx context.Context) (types.MalType, error) { return nil, nil })
 	total := 0
 	for b := range futBodies {
 		for o1 := range futOps {
